@@ -16,7 +16,7 @@ RULE = (
     "constructor; distinct = distinct (node names, edge set); non-trivial = every case (accepted: closure+order contract "
     "evaluated; refused: reference confirms a cycle/self-loop/unknown/isolated node)"
 )
-REQUIRED = {"contract_evaluations": 1000, "accepted": 1000, "refused": 1000, "model_graphs": 10, "incremental_equal": 30, "listing_checks": 1000, "mappings_in_different_key_orders": 300, "case_colliding_namings": 200}
+REQUIRED = {"contract_evaluations": 1000, "accepted": 1000, "refused": 1000, "model_graphs": 10, "incremental_equal": 30, "listing_checks": 1000, "fromdict_decorated_link_functions": 50, "mappings_in_different_key_orders": 300, "case_colliding_namings": 200}
 EXHAUSTIVE = {"quick": True, "thorough": True}
 ASSUMPTIONS = [
     "exhaustive scopes are finite (n<=5, loop-free at n=5 in quick); beyond them graphs are sampled",
@@ -347,7 +347,25 @@ def _run_fromdict(spec, ctx, VariablesDAG):
         for nm in r.permutation(names):
             if anc[nm]:
                 src = "lambda *, " + ", ".join(sorted(anc[nm])) + ": 0"
-                defs[nm] = LinkedVariable(eval(src))
+                fn = eval(src)
+                style = int(r.integers(0, 4))
+                if style == 1:
+                    # a link function that went through a functools.wraps-based decorator (tracing, torch.no_grad(), ...): same signature
+                    import functools
+
+                    def deco(f):
+                        @functools.wraps(f)
+                        def wrapper(*args, **kwargs):
+                            return f(*args, **kwargs)
+                        return wrapper
+
+                    fn = deco(fn)
+                    ctx.count("fromdict_decorated_link_functions")
+                elif style == 2:
+                    import functools
+
+                    fn = functools.partial(fn)  # a partial object without bound arguments: same signature
+                defs[nm] = LinkedVariable(fn)
             else:
                 defs[nm] = IndepVariable()
         reason = dagref.classify(names, anc)
